@@ -22,7 +22,7 @@ ID = "C03"
 LEVEL = "exploration"
 TECHNIQUE = "exhaustive enumeration of (term, dictionary) and of all dictionary pairs per term; cross-process fingerprint digests for 4 hash seeds"
 RULE = (
-    "terms = contexts^d x leaves (d<=2 quick, d<=3 core contexts thorough); for every dictionary o of the full product "
+    "terms = contexts^d x leaves (d<=2 quick, d<=3 over 12 core contexts thorough); for every dictionary o of the full product "
     "alphabet on which keys(o) succeeds: reported keys exist in o; o' = restrict(o, keys(o)) evaluates to the same "
     "outcome (memo-free twin) and reports the same keys; fingerprint(o) == fingerprint(o'); adding junk keys leaves keys "
     "and fingerprint unchanged; over ALL pairs (o1,o2) of the alphabet: fingerprints equal iff reported key sets and the "
@@ -35,11 +35,7 @@ ASSUMPTIONS = [
     "AllOptions reports every top-level key, so junk keys legitimately change its key set and are not added for it",
 ]
 
-CORE = [
-    "apply", "bind_src", "bind_res", "switch_disp", "switch_branch", "switch_dflt", "case_disp", "case_branch",
-    "case_cond", "coalesce_first", "coalesce_second", "list", "dict", "map_ev", "mapvalues_ev", "fa_kw", "ds_param",
-    "ds_dispatch", "ds_overload", "wo_A", "wo_SY", "wdo_B", "cached", "tmpl_param", "opt_default",
-]
+CORE = ["apply", "bind_res", "switch_disp", "switch_branch", "case_cond", "coalesce_second", "dict", "map_ev", "ds_param", "ds_overload", "wo_SY", "cached"]
 JUNK = [{"ZZ": 1}, {"ZZ": {"K": "{A}"}, "YY": [1]}]
 
 
